@@ -10,6 +10,7 @@ import mido.midifiles.midifiles as mf
 from lib import refmeta as M
 from lib.harness import Violation, exc_sig, fail
 
+LAST_TAGS = set()
 PID = 'C16'
 LEVEL = 'exploration'
 RULE = ('Rule-based state machine over one MidiFile and a plain model (type, ticks_per_beat, list of lists of message '
@@ -310,11 +311,15 @@ class Interp:
 
 
 def run_case(case):
+    LAST_TAGS.clear()
     it = Interp()
     for op in case['ops']:
         it.step(op)
         if it.fails:
             break
+    if it.nt:
+        LAST_TAGS.add('observe-edit-observe')
+    LAST_TAGS.update('op:' + op[0] if op[0] != 'observe' else 'observe:' + op[1] for op in case['ops'])
     return it.fails
 
 
@@ -414,7 +419,7 @@ class FileMachine(RuleBasedStateMachine):
 
     def teardown(self):
         ops = self.ops + [['observe', w] for w in ('length', 'iter', 'save', 'merged', 'play')]
-        unknown = _CTX.run({'ops': ops})
+        unknown = _CTX.run_tagged({'ops': ops})
         if unknown:
             raise Violation(unknown[0]['sig'])
 
